@@ -109,7 +109,7 @@ func scenSocksAuth(s *spec.RunSpec, res *spec.RunResult, finish func(*World)) {
 					time.Sleep(200 * time.Microsecond)
 				}
 			}
-			return !cut
+			return len(b) == 0 // everything was put on the wire (a cut may fall exactly behind it)
 		}
 		greeting := []byte{5, byte(len(c.Methods))}
 		for _, m := range c.Methods {
